@@ -2,8 +2,11 @@ package main
 
 import (
 	"bytes"
+	"encoding/json"
 	"errors"
 	"fmt"
+	"os"
+	"os/exec"
 	"regexp"
 	"strconv"
 	"strings"
@@ -599,9 +602,20 @@ func runC08(c *ctx) {
 	res := c.res
 	res.Rule = "sessions: real netconf.Driver RPC sequences (1..25 calls) against the NETCONF server simulator; per call reply now / late (released between calls or emitted next to a later reply) / never; echo off / echo with read boundaries / echo sharing reads with the reply; 1.0 / 1.1 with random RFC 6242 chunkings; random read segmentations (sizes 1..400); per-call timeouts 40-80 ms; malformed stream = unsolicited, duplicate, future-id, id-0 and overflowing-id messages. non-trivial = session with >= 2 calls and at least one late or never reply or echo; distinct by plan seed. scanners: the model's delimiter / message-id scanners vs Go regexp on generated strings"
 
+	// A panic in a library goroutine kills the process: the full run happens in a child process
+	// (same binary, replay "c08 all"); if it dies the parent bisects for the session that kills it.
+	full := c.replay == "" || c.replay == "c08 all" || strings.HasPrefix(c.replay, "c08 range ")
+	rangeLo, rangeHi := 0, 1<<30
+	if strings.HasPrefix(c.replay, "c08 range ") {
+		f := strings.Fields(c.replay)
+		rangeLo, _ = strconv.Atoi(f[2])
+		rangeHi, _ = strconv.Atoi(f[3])
+	}
+	scanRng := c.rng.Fork()
+
 	// 1. scanner = regexp (trusted, tested assumption)
-	if c.replay == "" || strings.HasPrefix(c.replay, "c08 scan") {
-		strs := c08ScanStrings(c.rng.Fork(), c.n(4000, 60000))
+	if c.replay == "c08 all" || strings.HasPrefix(c.replay, "c08 scan") {
+		strs := c08ScanStrings(scanRng, c.n(4000, 60000))
 		if strings.HasPrefix(c.replay, "c08 scan") {
 			b, _ := vlib.UnHex(strings.Fields(c.replay)[2])
 			strs = [][]byte{b}
@@ -632,7 +646,7 @@ func runC08(c *ctx) {
 		plan c08plan
 	}
 	var jobs []job
-	if c.replay != "" {
+	if !full {
 		f := strings.Fields(c.replay)
 		if len(f) >= 3 && f[1] == "directed" {
 			if p, ok := c08Directed(f[2]); ok {
@@ -659,6 +673,20 @@ func runC08(c *ctx) {
 			p.name = fmt.Sprintf("seed-%d", seed)
 			jobs = append(jobs, job{fmt.Sprintf("c08 plan %d %d", seed, mc), p})
 		}
+	}
+	if c.replay == "" {
+		lines := make([]string, len(jobs))
+		for i, j := range jobs {
+			lines[i] = j.line
+		}
+		c08Supervise(c, lines)
+		return
+	}
+	if full {
+		if rangeHi > len(jobs) {
+			rangeHi = len(jobs)
+		}
+		jobs = jobs[rangeLo:rangeHi]
 	}
 	runs := make([]c08run, len(jobs))
 	workers := 12
@@ -752,18 +780,23 @@ func runC08(c *ctx) {
 		var fails []fail
 		lostTiming := false
 		// ids
+		idBase := 0
+		if len(run.reqIDs) > 0 {
+			idBase = run.reqIDs[0]
+		}
 		for k := range p.calls {
-			want := 101 + k
-			if k >= len(run.reqIDs) || !run.reqOK[k] || run.reqIDs[k] != want {
+			want := idBase + k
+			if k >= len(run.reqIDs) || !run.reqOK[k] || run.reqIDs[k] != want || want == 0 {
 				got := -1
 				if k < len(run.reqIDs) {
 					got = run.reqIDs[k]
 				}
-				fails = append(fails, fail{"oracle", fmt.Sprintf("request %d carries message-id %d, expected %d (ids must be unique and increase from initialMessageID)", k, got, want), "ids-not-increasing"})
+				fails = append(fails, fail{"oracle", fmt.Sprintf("request %d carries message-id %d, expected %d (ids must be non-zero, unique and increase by one from the first request); session %s", k, got, want, p.name), "ids-not-increasing"})
 				break
 			}
 			if L.modelID[k] != want {
-				fails = append(fails, fail{"machinery", fmt.Sprintf("model id %d for call %d", L.modelID[k], k), "model-ids"})
+				fails = append(fails, fail{"correspondence", fmt.Sprintf("request %d carries message-id %d, the model (initialMessageID from the source) says %d; session %s", k, run.reqIDs[k], L.modelID[k], p.name), "impl-vs-model-ids"})
+				break
 			}
 		}
 		for k, cl := range p.calls {
@@ -772,21 +805,22 @@ func runC08(c *ctx) {
 			if o.class == "nil" {
 				impl = vlib.Hex(o.raw)
 			}
-			desc := fmt.Sprintf("session %s (v%s echo=%d) call %d id=%d mode=%d timeout=%dms chunks=%v seg=%v payload=%q", p.name, ver, p.echo, k, 101+k, cl.mode, cl.timeoutMs, cl.chunks, p.seg, cl.payload)
+			desc := fmt.Sprintf("call %d (id %d, v%s, echo=%d, mode=%d)", k, idBase+k, ver, p.echo, cl.mode)
+			sess := fmt.Sprintf("; session %s timeout=%dms chunks=%v seg=%v payload=%q", p.name, cl.timeoutMs, cl.chunks, p.seg, cl.payload)
 			// unconditional: whatever comes back carries the caller's id first
 			if o.class == "nil" {
 				m := c08ReMsgID.FindSubmatch(o.raw)
 				if len(m) != 2 || string(m[1]) == "" {
-					fails = append(fails, fail{"oracle", desc + fmt.Sprintf(": returned a message without message-id: %q", o.raw), "misdelivered:no-id"})
+					fails = append(fails, fail{"oracle", desc + fmt.Sprintf(": returned a message without message-id: %q", o.raw) + sess, "misdelivered:no-id"})
 					continue
 				}
 				n, _ := strconv.Atoi(string(m[1]))
 				if k < len(run.reqIDs) && n != run.reqIDs[k] {
-					fails = append(fails, fail{"oracle", desc + fmt.Sprintf(": returned the reply to another request (first message-id %d): %q", n, o.raw), "misdelivered:other-id"})
+					fails = append(fails, fail{"oracle", desc + fmt.Sprintf(": returned the reply to another request (first message-id %d): %q", n, o.raw) + sess, "misdelivered:other-id"})
 					continue
 				}
 			} else if o.class != "timeout" {
-				fails = append(fails, fail{"oracle", desc + ": call failed with error class " + o.class + ": " + o.res, "wrong-error:" + o.class})
+				fails = append(fails, fail{"oracle", desc + ": call failed with error class " + o.class + ": " + o.res + sess, "wrong-error:" + o.class})
 				continue
 			}
 			// correspondence: the model predicts the exact raw message or the timeout
@@ -801,7 +835,7 @@ func runC08(c *ctx) {
 				if impl == "T" && L.model[k] != "T" {
 					lostTiming = true // may be scheduling: decided after the slow re-run
 				}
-				fails = append(fails, fail{"correspondence", desc + fmt.Sprintf(": impl %s, model %s", c08short(impl), c08short(L.model[k])), "impl-vs-model"})
+				fails = append(fails, fail{"correspondence", desc + fmt.Sprintf(": impl %s, model %s", c08short(impl), c08short(L.model[k])) + sess, "impl-vs-model"})
 			}
 			if L.dom && inProp {
 				mOK := false
@@ -813,7 +847,7 @@ func runC08(c *ctx) {
 					mOK = bytes.Equal(c08TrimLF(mb), c08TrimLF(sb))
 				}
 				if !mOK {
-					fails = append(fails, fail{"machinery", desc + fmt.Sprintf(": in-domain but model %s differs from spec %s", c08short(L.model[k]), c08short(L.spec[k])), "model-vs-spec"})
+					fails = append(fails, fail{"machinery", desc + fmt.Sprintf(": in-domain but model %s differs from spec %s", c08short(L.model[k]), c08short(L.spec[k])) + sess, "model-vs-spec"})
 				}
 			}
 			// oracle against the server's side of the story
@@ -836,7 +870,15 @@ func runC08(c *ctx) {
 						sig = "misfiled-reply:" + c08cause(blame(o.raw))
 					}
 				}
-				fails = append(fails, fail{"oracle", desc + fmt.Sprintf(": impl %s, the server sent %s", c08short(impl), c08short(L.spec[k])), sig})
+				got := "returned " + c08short(impl)
+				if impl == "T" {
+					got = "timed out"
+				}
+				exp := "the server sent in full " + c08short(L.spec[k])
+				if L.spec[k] == "T" {
+					exp = "the server had sent no reply to it"
+				}
+				fails = append(fails, fail{"oracle", desc + ": " + got + ", " + exp + sess, sig})
 			}
 		}
 		if lostTiming && !final {
@@ -892,6 +934,75 @@ func runC08(c *ctx) {
 		}
 	}
 	res.TracesVsImpl = len(jobs)
+}
+
+// c08Child runs this binary again on the given replay selector and returns its Result.
+func c08Child(c *ctx, selector string) (*vlib.Result, string) {
+	tmp, err := os.CreateTemp("", "verif-c08-*.json")
+	if err != nil {
+		return nil, err.Error()
+	}
+	tmp.Close()
+	defer os.Remove(tmp.Name())
+	cmd := exec.Command(os.Args[0], "C08", "-tier", c.tier, "-seed", strconv.FormatUint(c.seed, 10), "-driver", c.driver,
+		"-scale", strconv.Itoa(c.scale), "-out", tmp.Name(), "-replay", selector)
+	out, err := cmd.CombinedOutput()
+	tail := string(out)
+	if len(tail) > 1500 {
+		tail = tail[len(tail)-1500:]
+	}
+	if err != nil {
+		return nil, tail
+	}
+	b, err := os.ReadFile(tmp.Name())
+	if err != nil {
+		return nil, tail
+	}
+	var r vlib.Result
+	if json.Unmarshal(b, &r) != nil {
+		return nil, tail
+	}
+	return &r, tail
+}
+
+func c08Supervise(c *ctx, lines []string) {
+	r, tail := c08Child(c, "c08 all")
+	if r != nil {
+		rule := c.res.Rule
+		*c.res = *r
+		c.res.Rule = rule
+		return
+	}
+	// the child died: find the first session that kills it
+	lo, hi := 0, len(lines)
+	for hi-lo > 1 {
+		mid := (lo + hi) / 2
+		if rr, _ := c08Child(c, fmt.Sprintf("c08 range %d %d", lo, mid)); rr == nil {
+			hi = mid
+		} else {
+			lo = mid
+		}
+	}
+	if lo < len(lines) {
+		if rr, t := c08Child(c, fmt.Sprintf("c08 range %d %d", lo, lo+1)); rr == nil {
+			c.res.Case(lines[lo], true)
+			c.res.Fail("oracle", lines[lo], "the process died while the driver ran this session (panic in a library goroutine?): "+c08panicLine(t), "panic")
+			return
+		}
+	}
+	c.res.Fail("machinery", "c08 all", "the harness child process died and no single session reproduces it: "+tail, "child-crash")
+}
+
+func c08panicLine(out string) string {
+	for _, l := range strings.Split(out, "\n") {
+		if strings.HasPrefix(l, "panic:") || strings.HasPrefix(l, "fatal error:") {
+			return l
+		}
+	}
+	if len(out) > 300 {
+		out = out[len(out)-300:]
+	}
+	return out
 }
 
 func c08cause(reason string) string {
